@@ -38,7 +38,9 @@ type KBytesStats struct {
 // ok = false when the state does not qualify: a transaction is open, tables are snappy-compressed (the table
 // model has no snappy decoder), the state is larger than maxBytes, or the capture raced with a flush.
 func (r *Runner) DumpKBytes(rnd *vlib.RNG, maxBytes int) (cs string, st KBytesStats, ok bool) {
-	if r.DB == nil || r.Txn != nil || r.Prog.Cfg.Snappy {
+	// byte-level cases are evaluated with the hypothesis re-checks of the byte-level theorems, which assume an injective
+	// comparer (cmp_eq): programs under the non-injective comparer 4 contribute KGet/KCompact/KWf cases only
+	if r.DB == nil || r.Txn != nil || r.Prog.Cfg.Snappy || r.Prog.Cfg.CmpID >= 4 {
 		return
 	}
 	v1 := leveldb.VerifDumpVersion(r.DB)
